@@ -4,44 +4,13 @@
    from the forkdb (ReversibleSegment from a root, or from a descendant of a root, never reaches a LIB with a
    non-empty id), so the stored entry of a root is always unsent and storing it again changes nothing; the
    rest of ProcessBlock then finds an empty longest chain.
-   This file: the base lemmas of FixedLib.v under the WEAK id hypothesis (parent ids may be empty) and
-   ProcessBlock on a root that is already stored. *)
+   The base lemmas are in StoreFacts.v (put_same), WalkFacts.v (find_zero_wf, chain_parent_nz, rs_root) and
+   FixedLib.v (add_link_root, lc_root_unsent); this file: ProcessBlock on a block that is already stored, for
+   any includeInitialLIB flag. *)
 From BV Require Import Base.Prelude Model.Block Model.ForkDB Model.Forkable Spec.Consumer
   Proofs.Fk.StoreFacts Proofs.Fk.WalkFacts Proofs.Fk.LoopFacts Proofs.Fk.StoreChange Proofs.Fk.SwitchFacts
   Proofs.Fk.FixedLib.
 Local Open Scope N_scope.
-
-(* storing an entry that is already stored, unchanged *)
-Lemma put_same l e : NoDup (keys l) -> In e l -> put e l = l.
-Proof.
-  induction l as [|x l IH]; intros Hnd Hin; [destruct Hin|].
-  cbn [keys map] in Hnd. fold (keys l) in Hnd. inversion Hnd as [|? ? Hx Hnd']; subst.
-  cbn [put]. destruct (N.eqb_spec (bid (eb x)) (bid (eb e))) as [E|E].
-  - destruct Hin as [->|Hin]; [reflexivity|].
-    exfalso. apply Hx. unfold key. rewrite E. apply (in_map key). exact Hin.
-  - destruct Hin as [->|Hin]; [congruence|]. f_equal. apply IH; assumption.
-Qed.
-
-Lemma has_lib_nz d : ri (libref d) <> 0 -> has_lib d = true.
-Proof.
-  intros H. unfold has_lib, ref_eqb, ref_empty. cbn [ri rn].
-  destruct (N.eqb_spec (ri (libref d)) 0); [contradiction | reflexivity].
-Qed.
-
-(* ReversibleSegment from a stored root: nothing (the root is the LIB block itself, lies in the guard zone,
-   or its empty parent link is not the LIB) *)
-Lemma rs_root d first x cn e : wf_store (store d) -> ri (libref d) <> 0 ->
-  find x (store d) = Some e -> bparent (eb e) = 0 ->
-  exists r, rs_loop (fuel_of d) d first x cn [] = Some ([], r).
-Proof.
-  intros Hwf Hl Hf Hp. unfold fuel_of. cbn [rs_loop].
-  destruct ((first <? cn) && (cn <? rn (libref d))); [eauto|].
-  destruct (x =? ri (libref d)); [eauto|].
-  rewrite Hf, Hp.
-  destruct ((first <? num_or0 d 0) && (num_or0 d 0 <? rn (libref d))); [eauto|].
-  destruct (N.eqb_spec 0 (ri (libref d))) as [E|_]; [exfalso; apply Hl; symmetry; exact E|].
-  rewrite (find_zero_wf _ Hwf), (has_lib_nz d Hl). eauto.
-Qed.
 
 Section Weak.
   Variable U : list block.
@@ -54,56 +23,6 @@ Section Weak.
 
   Notation in_U := (in_U U).
 
-  Lemma wf_of_Uw l : NoDup (keys l) -> in_U l -> wf_store l.
-  Proof.
-    intros Hnd HU. constructor; [exact Hnd | intros e He; apply U_id; apply HU; exact He |].
-    intros e p He Hp. pose proof (find_some _ _ _ Hp) as [Hpin Hk].
-    apply U_up; [apply HU; exact He | apply HU; exact Hpin | symmetry; exact Hk].
-  Qed.
-
-  Lemma add_link_new_w d b : In b U -> find (bid b) (store d) = None ->
-    add_link d b = (new_db d b, false).
-  Proof.
-    intros Hb Hf. destruct (U_id b Hb) as (H1 & H3).
-    unfold add_link. destruct (N.eqb_spec (bid b) (bparent b)); [contradiction|].
-    destruct (N.eqb_spec (bid b) 0); [contradiction|]. cbn [orb].
-    unfold exists_link, link_of. rewrite Hf. cbn.
-    unfold new_db. f_equal. f_equal. apply put_keys_new. apply find_none. exact Hf.
-  Qed.
-
-  (* a stored block with a non-empty parent id is recognised *)
-  Lemma add_link_old_w d b e : in_U (store d) -> In b U -> find (bid b) (store d) = Some e ->
-    bparent b <> 0 -> add_link d b = (d, true).
-  Proof.
-    intros HU Hb Hf H2. destruct (U_id b Hb) as (H1 & H3).
-    unfold add_link. destruct (N.eqb_spec (bid b) (bparent b)); [contradiction|].
-    destruct (N.eqb_spec (bid b) 0); [contradiction|]. cbn [orb].
-    unfold exists_link, link_of. rewrite Hf.
-    rewrite (stored_is_self U U_uniq _ _ _ HU Hb Hf).
-    destruct (N.eqb_spec (bparent b) 0); [contradiction|]. reflexivity.
-  Qed.
-
-  (* a stored, unsent root is stored again: the forkdb does not change, AddLink answers "did not exist" *)
-  Lemma add_link_root d b e : NoDup (keys (store d)) -> in_U (store d) -> In b U ->
-    find (bid b) (store d) = Some e -> bparent b = 0 -> esent e = false ->
-    add_link d b = (d, false).
-  Proof.
-    intros Hnd HU Hb Hf H2 Hs. destruct (U_id b Hb) as (H1 & H3).
-    unfold add_link. destruct (N.eqb_spec (bid b) (bparent b)); [contradiction|].
-    destruct (N.eqb_spec (bid b) 0); [contradiction|]. cbn [orb].
-    unfold exists_link, link_of. rewrite Hf.
-    pose proof (stored_is_self U U_uniq _ _ _ HU Hb Hf) as Eb. rewrite Eb, H2. cbn [N.eqb negb].
-    assert (Ee : mkEntry b false = e) by (destruct e as [eb0 es0]; cbn in Eb, Hs; subst; reflexivity).
-    rewrite Ee, (put_same _ e Hnd (proj1 (find_some _ _ _ Hf))). destruct d; reflexivity.
-  Qed.
-
-  Lemma fk_step_dropped_w s b : In b U -> dropped s b = true -> fk_step cfg s b = (s, [], ROk).
-  Proof.
-    intros Hb Hd. destruct (U_id b Hb) as (H1 & H3).
-    unfold fk_step. destruct (N.eqb_spec (bid b) (bparent b)); [contradiction|].
-    unfold dropped in Hd. rewrite Hd. reflexivity.
-  Qed.
-
   (* ProcessBlock on a block that is already stored, while a LIB is set and this is not the inclusive
      first delivery: nothing happens, whether its parent id is empty or not *)
   Lemma fk_step_old_w s b e : NoDup (keys (store (db s))) -> in_U (store (db s)) -> In b U ->
@@ -114,7 +33,7 @@ Section Weak.
     fk_step cfg s b = (s, [], ROk).
   Proof.
     intros Hnd HU Hb Hf Hroot Hl Hni. destruct (U_id b Hb) as (H1 & H3).
-    pose proof (wf_of_Uw _ Hnd HU) as Hwf.
+    pose proof (wf_of_U U U_id U_up _ Hnd HU) as Hwf.
     unfold fk_step. destruct (N.eqb_spec (bid b) (bparent b)); [contradiction|].
     destruct ((bnum b <? rn (libref (db s))) && match last_sent s with Some _ => true | None => false end); [reflexivity|].
     rewrite Hni.
@@ -125,12 +44,12 @@ Section Weak.
       destruct (last_sent s) as [ls|]; [apply scss_total; exact Hwf | eauto]. }
     destruct Hsw as (u & r & j & ->).
     destruct (N.eq_dec (bparent b) 0) as [E0|E0].
-    - rewrite (add_link_root _ _ _ Hnd HU Hb Hf E0 (Hroot E0)).
+    - rewrite (add_link_root U U_id U_uniq _ _ _ Hnd HU Hb Hf E0 (Hroot E0)).
       rewrite (has_lib_nz _ Hl).
       assert (Hs : with_db s (db s) = s) by (destruct s; reflexivity). rewrite Hs.
       pose proof (stored_is_self U U_uniq _ _ _ HU Hb Hf) as Eb.
       destruct (rs_root (db s) (c_first cfg) (bid b) (bnum b) e Hwf Hl Hf) as [rr Hrs]; [rewrite Eb; exact E0|].
       unfold reversible_segment. cbn [bref ri rn]. rewrite Hrs. rewrite orb_true_r. reflexivity.
-    - rewrite (add_link_old_w _ _ _ HU Hb Hf E0). reflexivity.
+    - rewrite (add_link_old U U_id U_uniq _ _ _ HU Hb Hf E0). reflexivity.
   Qed.
 End Weak.
